@@ -142,7 +142,7 @@ def _chained():
 EXC_KINDS = {
     "builtin_msg": [lambda: ValueError("boom"), lambda: RuntimeError("step 3 failed: code=503"), lambda: TypeError("x")],
     "builtin_empty": [lambda: RuntimeError(), lambda: ValueError("")],
-    "builtin_uni": [lambda: ValueError(UNI), lambda: RuntimeError("üñî")],
+    "builtin_uni": [lambda: ValueError(UNI), lambda: RuntimeError("\u00fc\u00f1\u00ee")],
     "builtin_args2": [lambda: ValueError("a", 2)],
     "oserror": [lambda: OSError(2, "No such file"), lambda: FileNotFoundError(2, "missing", "f.txt"),
                 lambda: TimeoutError("timed out")],
@@ -162,13 +162,13 @@ EXC_KINDS = {
 # ------------------------------------------------------------------ typed field kinds: kind -> (annotation, values)
 _UTC = timezone.utc
 TYPED_KINDS = {
-    "int": (int, [7, 0, -(2 ** 40)]),
-    "str": (str, ["hello", "", UNI]),
+    "int": (int, [-(2 ** 40), 0, 7]),
+    "str": (str, [UNI, "", "hello"]),
     "float_int": (float, [2.0, 0.0, -1000.0]),
     "float_frac": (float, [0.5, -3.25, 1e-07]),
     "bool": (bool, [True, False]),
     "opt_none": (Optional[int], [None]),
-    "opt_some": (Optional[str], ["v", ""]),
+    "opt_some": (Optional[str], ["", "v"]),
     "union": (Union[int, str], [1, "1", ""]),
     "list_int": (list[int], [[1, 2, 3], [], [0]]),
     "list_str": (list[str], [["a", "é", ""], []]),
@@ -200,7 +200,7 @@ TYPED_KINDS = {
 # ------------------------------------------------------------------ dynamic field / result kinds: kind -> values
 JSON_KINDS = {
     "int": [1, 0, -5, 2 ** 40],
-    "str": ["x", "", UNI],
+    "str": [UNI, "", "x"],
     "float_int": [1.0, 0.0],
     "float_frac": [0.25, -1e-07],
     "bool": [True, False],
